@@ -185,3 +185,14 @@ also("C08", "constant-bound rule on package-level table lookups", "Also decides 
 also("C10", "open-flag rule on key persistence", "Also decides that the file-backed key manager stores the key it just created (no silent keep of an existing file).")
 also("C14", "ESP at-most-once rule on workspace requests", "Also decides that a workspace is requested at most once per attempt.")
 also("C18", "ESP error-propagation rule", "Also decides that a codec function fails when one of its steps failed, and that errors are discarded only where the callee cannot fail.")
+
+# rules added after the round-12 seeds and the round-9 refactorings
+also("C01", "options-literal rule over the entry point's helper region", "Options built by an unexported helper of an entry point are held to the same rule: roots and verification time are the caller's.")
+also("C03", "ESP rule on the measurement comparison (shared with C02.R1)", "Also decides that a launch with a named configuration is compared with the measurement listed for that configuration.")
+also("C04", "stride-quotient rule (T19)", "Also decides that where page work is split into equal shares the remainder of the division is dealt with.")
+also("C05", "stride-quotient rule (T19)", "Also decides that where region work is split into equal shares the remainder of the division is dealt with.")
+also("C13", "value-identity rule on the manifest entry's path", "Also decides that the written file's path is computed from the very value recorded as the entry's Path.")
+also("C15", "control-dependence rule on mode flags", "Also decides that no decision in the golden measurement's closure and no store to a Context field it reads depends on DryRun/MeasurementOnly.")
+also("C16", "who-may-manufacture rule on evidence sources", "Also decides that the extraction and verification libraries create no getter / variable reader of their own when handed the caller's options.")
+also("C17", "record fields as path-state cells; per-return type check of PEM blocks", "Decisions and keys parked in an update record are followed to where the record is applied.")
+also("C19", "open-flag rule on the output back end (shared with C03.R9)", "Also decides that an existing --out file is replaced wholly.")
